@@ -108,6 +108,7 @@ func dstGrid(r *workload.Rand, need int) [][]byte {
 func RunC16(c *Ctx) {
 	var longBuf rjson.Buffer
 	var longVR rjson.ValueReader
+	deepBuf := deepDirtyBuffer()
 	otherDocs := [][]byte{[]byte(`{"zz":["overwrite","me",{"k":"\n\t"}],"y":"\u00e9"}`), []byte(`["a","b","c","d","e","f","g","h"]`), []byte(`{"a":{"a":{"a":"deep"}}}`)}
 	process := func(cs *h.Case) {
 		d := cs.Input // read-only
@@ -138,6 +139,28 @@ func RunC16(c *Ctx) {
 			}
 		}
 		c.Rec.C("inputs_checked_for_writes")
+		// scratch Buffers are scratch buffers too: results must not depend on their prior contents
+		// (nil vs a Buffer grown and left dirty by deep handler traversals vs the long-lived one)
+		c.Guarded(cs, "buffer-taking functions (Buffer contents irrelevant)", func() {
+			p1, e1 := rjson.SkipValue(d, nil)
+			p2, e2 := rjson.SkipValue(d, deepBuf)
+			p3, e3 := rjson.SkipValue(d, &longBuf)
+			f1, g1 := rjson.SkipValueFast(d, nil)
+			f2, g2 := rjson.SkipValueFast(d, deepBuf)
+			f3, g3 := rjson.SkipValueFast(d, &longBuf)
+			v1, v2, v3 := rjson.Valid(d, nil), rjson.Valid(d, deepBuf), rjson.Valid(d, &longBuf)
+			c.Rec.Evals(9)
+			c.Rec.C("buffer_independence_comparisons")
+			if p1 != p2 || p1 != p3 || (e1 == nil) != (e2 == nil) || (e1 == nil) != (e3 == nil) {
+				c.Rec.Violate(cs, "SkipValue result depends on the scratch Buffer's prior contents", "SkipValue", fmt.Sprintf("(nil) p=%d err=%s", p1, errStr(e1)), fmt.Sprintf("(dirty) p=%d err=%s / (long-lived) p=%d err=%s", p2, errStr(e2), p3, errStr(e3)))
+			}
+			if f1 != f2 || f1 != f3 || (g1 == nil) != (g2 == nil) || (g1 == nil) != (g3 == nil) {
+				c.Rec.Violate(cs, "SkipValueFast result depends on the scratch Buffer's prior contents", "SkipValueFast", fmt.Sprintf("(nil) p=%d err=%s", f1, errStr(g1)), fmt.Sprintf("(dirty) p=%d err=%s / (long-lived) p=%d err=%s", f2, errStr(g2), f3, errStr(g3)))
+			}
+			if v1 != v2 || v1 != v3 {
+				c.Rec.Violate(cs, "Valid result depends on the scratch Buffer's prior contents", "Valid", fmt.Sprint(v1), fmt.Sprint(v2, v3))
+			}
+		})
 
 		p0 := refmodel.SkipWS(d, 0)
 		ws, wend, wok := refmodel.ScanString(d, p0)
@@ -314,5 +337,6 @@ func RunC16(c *Ctx) {
 		}
 	})
 	workload.W5([]int{1000, 70000}, sink)
+	workload.W4([]int{9999, 10000, 10001}, workload.NestPatterns[:6], []string{"", "0"}, sink)
 	gr.close()
 }
